@@ -166,10 +166,10 @@ type Sub struct {
 	DLGen int
 	Dels  []*Del
 	// TTL clock: expires when now > Activity + TTL
-	Activity  Iv
+	Activity Iv
 	// Reconf: an UpdateSubscription changed a duration of this subscription (what
 	// goes wrong with it afterwards is also C17's "what is enforced")
-	Reconf bool
+	Reconf    bool
 	DeletedAt Iv
 	// Held: ack ids the client received and has not acked, in receive order
 	Held []string
@@ -1555,8 +1555,21 @@ func (m *Model) Owed(call Iv) map[string][]string {
 		if !s.Live {
 			continue
 		}
-		for _, d := range s.Dels {
+		for i, d := range s.Dels {
 			if d.State == Outstanding && rel(call, d.Exp) == Before {
+				if s.Cfg.Ordered && m.Msgs[d.Msg].Key != "" {
+					// an earlier same-key delivery whose fate the properties leave open
+					// (don't-care) may legitimately still hold this one back
+					blocked := false
+					for j := 0; j < i; j++ {
+						if s.Dels[j].State == Unknown && m.Msgs[s.Dels[j].Msg].Key == m.Msgs[d.Msg].Key {
+							blocked = true
+						}
+					}
+					if blocked {
+						continue
+					}
+				}
 				out[n] = append(out[n], m.Msgs[d.Msg].ID)
 			}
 		}
